@@ -112,6 +112,7 @@ type Hist struct {
 	// Final phase markers
 	FinalStamp       int64 // stamp after every client connection was closed and quiescence reached
 	ServerCloseCall  int64
+	PIDSetStamp      int64 // when the harness set the per-connection packet-id counters (0 = never)
 	ServerCloseRet   int64
 	ServerClosed     bool // Server.Close returned
 	CloseStuck       string
@@ -815,6 +816,7 @@ func (r *run) director() {
 				// bring every connection's own packet-id counter close to the wrap
 				r.pidSet = true
 				r.srv.VerifSetPacketIDCounters(sc.Knobs.SvcPIDStart)
+				h.PIDSetStamp = s.Stamp()
 			}
 			for _, st := range r.cs {
 				if st.st == csBarrier {
